@@ -41,7 +41,7 @@ type c15op struct{ op, ans, tag string }
 type c15 struct {
 	r    *Run
 	pend []c15op
-	pool [][]byte // encodings of generated messages, material for mutations
+	pool [][]byte  // encodings of generated messages, material for mutations
 	kept []keptEnc // the last few encoder results, re-checked after every later encode
 }
 
@@ -1020,7 +1020,7 @@ func (c *c15) mutateBytes(b []byte) ([]byte, string) {
 			val += "i1e"
 		}
 		val += strings.Repeat(close, depth)
-		return append(append(append([]byte{}, b[:len(b)-1]...), ("2:zz" + val)...), 'e'), "deep-nesting"
+		return append(append(append([]byte{}, b[:len(b)-1]...), ("2:zz"+val)...), 'e'), "deep-nesting"
 	}
 }
 
